@@ -7,3 +7,7 @@ package keeper
 // read-only accessor used by the operator module (frame: nothing is written)
 //@ func (*Keeper).GetAVSSlashContract
 //@   ensures[C04.gasc.readonly] true
+
+//@ define avsKey(addr)       = cat(g("x/avs/types.KeyPrefixAVSInfo"), addrbytes(hex2addr(addr)))
+//@ define avsRaw(c, addr)    = get(c, "avs", avsKey(addr))
+//@ define avsInfoOf(c, addr) = unm["x/avs/types.AVSInfo"](avsRaw(c, addr))
